@@ -588,6 +588,10 @@ func decide(sc *Scenario) scenarioResult {
 			// one root cause whatever the function does: the host API resolves a re-exported import to another function
 			sig = "reexported-import:called-through-ExportedFunction:wrong-function:compiler"
 		}
+		if strings.Contains(st.Tag, "galias:") && who == "compiler" && (kind == "wrong-value" || kind == "missing-trap") {
+			// one root cause wherever the accessor is reached from: the compiler's per-index cache of global values
+			sig = "same-global-imported-twice:global.set-through-one-index:stale-global.get-through-the-other:compiler"
+		}
 		if strings.Contains(st.Tag, "via-reexport-chain:") && who == "compiler" {
 			sig = "reexported-import:imported-by-third-module:wrong-function:compiler"
 		}
@@ -656,6 +660,9 @@ func decide(sc *Scenario) scenarioResult {
 		same := a.Err == b.Err && a.Str == b.Str && (st.Kind == "inst" || a.Err != "" || valsEqual(st.RT, a.Res, b.Res))
 		if st.Kind == "inst" {
 			same = (a.Err == "") == (b.Err == "")
+		}
+		if !same && st.Soft && (mismatch(st, a) != "" || mismatch(st, b) != "") {
+			continue // already reported against the model
 		}
 		if !same && st.NoExp {
 			add("api.Global.String:engines-differ", fmt.Sprintf("step #%d %s: interpreter %s, compiler %s", i, st.String(), a.String(), b.String()), i, rc.Obs)
